@@ -1,6 +1,6 @@
 """C10 - solvers fail loudly: error discipline for status-returning factorisations."""
 import ast
-from ..core import RuleResult, Finding, AnalysisError, dotted, src, norm_construct
+from ..core import RuleResult, Finding, AnalysisError, dotted, src, norm_construct, guarded, guarded_list
 from .. import paths
 from ..expr import free_names, dump
 
@@ -171,6 +171,7 @@ def check_function(repo, finfo, res):
                             construct=norm_construct(callx, finfo.node)))
 
 
+@guarded
 def rule_status(repo, tier):
     res = RuleResult('C10.STATUS', 'the status of every status-returning factorisation reaches a raising check before the factor is used', floor=1)
     mods = [SOLVER] if tier == 'quick' else sorted(repo.modules)
@@ -187,6 +188,7 @@ def rule_status(repo, tier):
     return res
 
 
+@guarded
 def rule_lstsq(repo, tier):
     res = RuleResult('C10.NANCHK', 'the lstsq solution passes a NaN assertion on every path before it is returned', floor=1)
     f = repo.func(SOLVER, 'LSTSQ.forward')
@@ -230,6 +232,7 @@ def _touch(e, names):
 
 
 
+@guarded
 def rule_zero(repo, tier):
     from ..expr import Inliner, free_names
     res = RuleResult('C10.ZERO', 'CG: on the early exit taken when the right-hand side is exactly zero the returned value derives from b (or '
@@ -273,8 +276,170 @@ def rule_zero(repo, tier):
     return res
 
 
+FACTOR_FUNCS = {'cholesky_ex': 'upper', 'cholesky': 'upper'}
+SOLVE_FUNCS = {'cholesky_solve': 'upper', 'solve_triangular': 'upper', 'cholesky_inverse': 'upper'}
+
+
+def _kwarg(call, name, default='False'):
+    for k in call.keywords:
+        if k.arg == name:
+            return k.value
+    return None
+
+
+def _factor_flag(repo, finfo, call, depth=0):
+    """source text of the triangle flag with which the factor returned by `call` was computed, in terms of the caller; None = unknown"""
+    name = (_ext_name(repo, finfo, call.func) or '').split('.')[-1]
+    if name in FACTOR_FUNCS:
+        k = _kwarg(call, FACTOR_FUNCS[name])
+        return 'False' if k is None else src(k)
+    if depth >= 2:
+        return None
+    tg, _how = repo.resolve_call(finfo, call, by_name=False)
+    tg = [t for t in (tg or []) if hasattr(t, 'node')]
+    if len(tg) != 1:
+        return None
+    callee = tg[0]
+    inner = [c for c in paths.calls_in(callee.node) if (_ext_name(repo, callee, c.func) or '').split('.')[-1] in FACTOR_FUNCS]
+    if len(inner) != 1:
+        return None
+    flag = _factor_flag(repo, callee, inner[0], depth + 1)
+    if flag is None:
+        return None
+    # substitute the callee's parameters by the caller's arguments / the declared defaults
+    a = callee.node.args
+    params = [x.arg for x in a.posonlyargs + a.args]
+    defaults = dict(zip(params[len(params) - len(a.defaults):], a.defaults))
+    for x, dflt in zip(a.kwonlyargs, a.kw_defaults):
+        params.append(x.arg)
+        if dflt is not None:
+            defaults[x.arg] = dflt
+    skip = 1 if _how in ('self', 'cls', 'super', 'ctor', 'byname') else 0
+    bound = {}
+    for i, arg in enumerate(call.args):
+        if i + skip < len(params):
+            bound[params[i + skip]] = src(arg)
+    for k in call.keywords:
+        if k.arg:
+            bound[k.arg] = src(k.value)
+    try:
+        tree = ast.parse(flag, mode='eval').body
+    except SyntaxError:
+        return None
+    class Sub(ast.NodeTransformer):
+        def visit_Name(self, n):
+            if n.id in params:
+                if n.id in bound:
+                    return ast.parse(bound[n.id], mode='eval').body
+                if n.id in defaults:
+                    return defaults[n.id]
+            return n
+    return src(Sub().visit(tree))
+
+
+def _walk_own(fnode):
+    """nodes of a function body without those of nested function / class definitions"""
+    stack = list(fnode.body)
+    while stack:
+        n = stack.pop()
+        if isinstance(n, (ast.FunctionDef, ast.AsyncFunctionDef, ast.Lambda, ast.ClassDef)):
+            continue
+        yield n
+        stack.extend(ast.iter_child_nodes(n))
+
+
+@guarded
+def rule_tri(repo, tier):
+    res = RuleResult('C10.TRI', 'the triangle flag (`upper`) of a Cholesky factorisation and of the triangular solve that consumes its factor are the same '
+                     'expression (also through a helper): a lower factor solved as an upper one returns a wrong vector without any error', floor=1)
+    mods = [SOLVER] if tier == 'quick' else sorted(repo.modules)
+    for m in mods:
+        for f in repo.module(m).functions.values():
+            solves = [c for c in _walk_own(f.node) if isinstance(c, ast.Call) and (dotted(c.func) or '').split('.')[-1] in SOLVE_FUNCS]
+            if not solves:
+                continue
+            # factor variables: name -> producing call
+            prod = {}
+            for st in _walk_own(f.node):
+                if isinstance(st, ast.Assign) and isinstance(st.value, ast.Call):
+                    for t in st.targets:
+                        names = [t] if isinstance(t, ast.Name) else list(t.elts) if isinstance(t, ast.Tuple) else []
+                        for k, nm in enumerate(names):
+                            if isinstance(nm, ast.Name) and (k == 0 or not isinstance(t, ast.Tuple)):
+                                prod.setdefault(nm.id, []).append(st.value)
+            for c in solves:
+                sname = (dotted(c.func) or '').split('.')[-1]
+                cands = [a for a in list(c.args) + [k.value for k in c.keywords] if isinstance(a, ast.Name) and a.id in prod]
+                for a in cands:
+                    flags = {_factor_flag(repo, f, pc) for pc in prod[a.id]}
+                    if flags == {None} or None in flags:
+                        continue
+                    sk = _kwarg(c, SOLVE_FUNCS[sname])
+                    sflag = 'False' if sk is None else src(sk)
+                    ok = flags == {sflag}
+                    res.inst({'function': f.fq, 'solve': src(c)[:70], 'factor': a.id, 'factor flag': sorted(flags), 'solve flag': sflag, 'agree': ok}, f.fq)
+                    if not ok:
+                        res.add(Finding('C10.TRI', f, '`%s` reads the factor `%s` as upper=%s, but it was computed with upper=%s: whenever the two differ the '
+                                        'returned vector solves a different system' % (src(c)[:70], a.id, sflag, '/'.join(sorted(flags))), node=c))
+    return res
+
+
+@guarded
+def rule_conf(repo, tier):
+    """history independence of the solver modules: an attribute configured by the constructor is never rebound in forward() from data of the
+    current call (sizes, tensors) - the next call, on another system, would inherit it (e.g. an iteration budget frozen at the first system's 10n)"""
+    res = RuleResult('C10.CONF', 'no solver forward() rebinds a constructor-configured attribute to a value computed from the current call\'s arguments: '
+                     'every call sees the configuration the user gave, whatever was solved before', floor=4)
+    mod = repo.module(SOLVER)
+    for ci in mod.classes.values():
+        init = repo.find_method(ci, '__init__')
+        fwd = repo.find_method(ci, 'forward')
+        if init is None or fwd is None or fwd.module.name != SOLVER:
+            continue
+        conf = set()
+        if init.module.name == SOLVER:
+            for n in ast.walk(init.node):
+                if isinstance(n, (ast.Assign, ast.AnnAssign)):
+                    tg = n.targets if isinstance(n, ast.Assign) else [n.target]
+                    for t in tg:
+                        for x in ([t] if not isinstance(t, ast.Tuple) else t.elts):
+                            d = dotted(x)
+                            if d and d.startswith('self.') and d.count('.') == 1:
+                                conf.add(d[5:])
+        # taint: names computed from forward's (non-self) parameters
+        tainted = set(fwd.params[1:])
+        changed = True
+        assigns = [n for n in ast.walk(fwd.node) if isinstance(n, (ast.Assign, ast.AugAssign, ast.AnnAssign)) and getattr(n, 'value', None) is not None]
+        while changed:
+            changed = False
+            for n in assigns:
+                if _names_load(n.value) & tainted:
+                    tg = n.targets if isinstance(n, ast.Assign) else [n.target]
+                    for t in tg:
+                        for x in ([t] if not isinstance(t, ast.Tuple) else t.elts):
+                            if isinstance(x, ast.Name) and x.id not in tainted:
+                                tainted.add(x.id)
+                                changed = True
+        writes = []
+        for n in assigns:
+            tg = n.targets if isinstance(n, ast.Assign) else [n.target]
+            for t in tg:
+                for x in ([t] if not isinstance(t, ast.Tuple) else t.elts):
+                    d = dotted(x)
+                    if d and d.startswith('self.') and d[5:] in conf:
+                        dep = sorted(_names_load(n.value) & tainted)
+                        writes.append((n, d, dep))
+        res.inst({'class': ci.fq, 'configured': sorted(conf), 'rebound in forward': [(d, dep) for _, d, dep in writes]}, ci.fq)
+        for n, d, dep in writes:
+            if dep or isinstance(n, ast.AugAssign):
+                res.add(Finding('C10.CONF', fwd, '`%s` rebinds the configured attribute `%s` from data of this call (%s): the next call on another system '
+                                'inherits it instead of the user\'s configuration' % (src(n)[:70], d, ', '.join(dep) or 'accumulated'), node=n,
+                                construct='conf|' + d))
+    return res
+
+
 def rules(repo, tier):
     from ..stale import rule_stale
     from .sparse_c10 import rule_idx, rule_dispatch
     return [rule_status(repo, tier), rule_lstsq(repo, tier), rule_zero(repo, tier), rule_stale(repo, 'C10.STALE', [(SOLVER, 'CG.forward')]),
-            rule_idx(repo, tier), rule_dispatch(repo, tier)]
+            rule_idx(repo, tier), rule_dispatch(repo, tier), rule_tri(repo, tier), rule_conf(repo, tier)]
